@@ -117,6 +117,9 @@ const (
 	VerifSnapshot     = 0
 	VerifBeforeCommit = 1
 	VerifAfterCommit  = 2
+	VerifBackupStart  = 3
+	VerifBackupDone   = 4
+	VerifMaxVersion   = 5
 )
 
 // VerifHook is called before a transaction takes its read timestamp, before a
@@ -137,7 +140,31 @@ var VerifAsyncHold func() bool
 		}
 	}
 	replace[filepath.Join(dir, "txn.go")] = dst
-	return []string{"badger " + ver + ": txn.go hooked (snapshot, before-commit, after-commit, async-commit hold)"}, nil
+	// DB.Backup and DB.MaxVersion become scheduling points (a backup run reads the store next to concurrent writers)
+	for _, f := range []struct{ file, old, new string }{
+		{"backup.go", "func (db *DB) Backup(w io.Writer, since uint64) (uint64, error) {",
+			"func (db *DB) Backup(w io.Writer, since uint64) (uint64, error) {\n\tif VerifHook != nil {\n\t\tVerifHook(VerifBackupStart)\n\t\tdefer VerifHook(VerifBackupDone)\n\t}\n\treturn db.verifBackup(w, since)\n}\n\nfunc (db *DB) verifBackup(w io.Writer, since uint64) (uint64, error) {"},
+		{"db.go", "func (db *DB) MaxVersion() uint64 {",
+			"func (db *DB) MaxVersion() uint64 {\n\tif VerifHook != nil {\n\t\tVerifHook(VerifMaxVersion)\n\t}\n\treturn db.verifMaxVersion()\n}\n\nfunc (db *DB) verifMaxVersion() uint64 {"},
+	} {
+		b, err := os.ReadFile(filepath.Join(dir, f.file))
+		if err != nil {
+			return nil, err
+		}
+		t := string(b)
+		if strings.Count(t, f.old) != 1 {
+			return nil, fmt.Errorf("badger %s %s: pattern %q found %d times", ver, f.file, f.old, strings.Count(t, f.old))
+		}
+		t = strings.Replace(t, f.old, f.new, 1)
+		d2 := filepath.Join(out, "gen", "badger", f.file)
+		if old, err := os.ReadFile(d2); err != nil || string(old) != t {
+			if err := os.WriteFile(d2, []byte(t), 0o644); err != nil {
+				return nil, err
+			}
+		}
+		replace[filepath.Join(dir, f.file)] = d2
+	}
+	return []string{"badger " + ver + ": txn.go hooked (snapshot, before-commit, after-commit, async-commit hold); backup.go, db.go hooked (Backup, MaxVersion)"}, nil
 }
 
 // rewriteFile instruments one source file. Rewrites:
